@@ -838,13 +838,20 @@ def classify(msg):
 
 
 def label_of(out, line):
-    """label for an assembled-file line that lies in a contract block: nearest [..] at or above in the same block"""
+    """label of the contract clause an assembled-file line belongs to: a [..] on that line, or on a line above that is part of the same
+    clause (a line whose code part ends with `,` closes a clause: labels above it belong to other clauses and are NOT inherited - an
+    unlabelled clause is attributed to every property of its function instead)"""
     k = line - 1
     fn = out.origin[k].get('fn')
     while k >= 0 and out.origin[k].get('kind') in ('contract', 'canary') and out.origin[k].get('fn') == fn:
         m = LABEL_RE.search(out.lines[k])
         if m:
             return m.group(1).strip()
+        if k == 0:
+            break
+        above = out.lines[k - 1].split('//')[0].rstrip()
+        if above.endswith(',') or re.search(r'\b(requires|ensures|invariant|decreases)\s*$', above):
+            break
         k -= 1
     return None
 
